@@ -197,9 +197,16 @@ where
     }
     pub fn scan(&self) -> impl Iterator<Item = Result<ScanItem>> + '_ {
         // like every other offset in the file, `startxref` is relative to the header
-        let xref_offset = self.backend.locate_xref_offset().unwrap();
-        let slice = self.backend.read(self.start_offset .. self.start_offset + xref_offset).unwrap();
-        let mut lexer = Lexer::with_offset(slice, self.start_offset);
+        let start_offset = self.start_offset;
+        let slice = self.backend.locate_xref_offset()
+            .and_then(|xref_offset| start_offset.checked_add(xref_offset).ok_or(PdfError::Invalid))
+            .and_then(|end| self.backend.read(start_offset .. end));
+        // without a usable `startxref` there is nothing to scan: report that as the only item
+        let (slice, mut error) = match slice {
+            Ok(slice) => (slice, None),
+            Err(e) => (&[][..], Some(e)),
+        };
+        let mut lexer = Lexer::with_offset(slice, start_offset);
         
         fn skip_xref(lexer: &mut Lexer) -> Result<()> {
             while lexer.next()? != "trailer" {
@@ -210,6 +217,9 @@ where
 
         let resolver = StorageResolver::new(self);
         std::iter::from_fn(move || {
+            if let Some(e) = error.take() {
+                return Some(Err(e));
+            }
             loop {
                 let pos = lexer.get_pos();
                 match parse_indirect_object(&mut lexer, &resolver, self.decoder.as_ref(), ParseFlags::all()) {
